@@ -2758,6 +2758,67 @@ let torowmajor dims a c =
 let tocolumnmajor dims a =
   scatter (rm_of_counter dims) (fun c _ -> a c) (prod0 dims) a
 
+(** val gatherp : int list -> int list -> int list **)
+
+let gatherp p l =
+  map (fun m -> nth m l 0) p
+
+(** val index_of : int -> int list -> int **)
+
+let rec index_of x = function
+| [] -> 0
+| y :: ys -> if (=) x y then 0 else Stdlib.Int.succ (index_of x ys)
+
+(** val invp : int list -> int list **)
+
+let invp p =
+  map (fun i -> index_of i p) (seq 0 (length p))
+
+(** val permute14 : int list -> int list -> (int -> 'a1) -> int -> 'a1 **)
+
+let permute14 p dims a =
+  let odims = gatherp p dims in
+  scatter (fun c -> flat odims (gatherp p (unflat dims c))) (fun c _ -> 
+    a c) (prod0 dims) a
+
+(** val permute17 : int list -> int list -> (int -> 'a1) -> int -> 'a1 **)
+
+let permute17 p dims a =
+  let odims = gatherp p dims in
+  (fun o ->
+  if Nat.ltb o (prod0 odims)
+  then a (flat dims (gatherp (invp p) (unflat odims o)))
+  else a o)
+
+(** val transpose_wrs :
+    scalar -> int -> int -> int -> (int -> t) -> wr list **)
+
+let transpose_wrs s v m n0 a =
+  let m0 = mul (Nat.div m v) v in
+  let n1 = mul (Nat.div n0 v) v in
+  app
+    (flat_map (fun j ->
+      app
+        (flat_map (fun i ->
+          map (fun jj ->
+            wr_store s (add (mul (add j jj) m) i) v (fun l ->
+              a (add (mul (add i l) n0) (add j jj)))) (seq 0 v))
+          (loop_starts 0 m0 v))
+        (flat_map (fun i ->
+          map (fun jj ->
+            wr_store1 s (add (mul (add j jj) m) i)
+              (a (add (add (mul i n0) j) jj))) (seq 0 v)) (seq m0 (sub m m0))))
+      (loop_starts 0 n1 v))
+    (flat_map (fun j ->
+      map (fun i -> wr_store1 s (add (mul j m) i) (a (add (mul i n0) j)))
+        (seq 0 m)) (seq n1 (sub n0 n1)))
+
+(** val transpose_tiled :
+    scalar -> int -> int -> int -> (int -> t) -> (int -> t) -> int -> t **)
+
+let transpose_tiled s v m n0 a c0 =
+  run_wrs s c0 (transpose_wrs s v m n0 a)
+
 (** val run_matmul_Z :
     cfg -> ety -> int -> int -> int -> z list -> z list -> z list **)
 
@@ -3029,3 +3090,27 @@ let run_torowmajor dims =
 
 let run_tocolumnmajor dims =
   map (tocolumnmajor dims (fun p -> p)) (seq 0 (prod0 dims))
+
+(** val run_permute : bool -> int list -> int list -> int list * int list **)
+
+let run_permute cxx17 p dims =
+  ((gatherp p dims),
+    (map
+      (if cxx17
+       then permute17 p dims (fun q -> q)
+       else permute14 p dims (fun q -> q)) (seq 0 (prod0 dims))))
+
+(** val run_transpose : int -> int -> int -> z list **)
+
+let run_transpose v m n0 =
+  map
+    (Obj.magic transpose_tiled zS v m n0 (fun q -> Obj.magic Z.of_nat q)
+      (fun _ ->
+      Obj.magic (Zpos (XI (XO (XO (XO (XI (XO (XI (XI (XI (XI (XI (XI (XO (XI
+        (XO (XO XH)))))))))))))))))))
+    (seq 0 (add (mul m n0) (Stdlib.Int.succ (Stdlib.Int.succ 0))))
+
+(** val run_invp : int list -> int list **)
+
+let run_invp =
+  invp
